@@ -240,7 +240,7 @@ def verify_contract(c, reg, timeout_ms=QUICK_TIMEOUT_MS, max_paths=4000, want_sm
     out['opaque_specs'] = []
     loops_local = {k: v for k, v in api.LOOPS.items()}
     reg.loop_contracts = loops_local
-    reg.bounds.update(c.bounds)
+    reg.bounds = dict(c.bounds)
     path_records = []
 
     def run_path(ctx):
@@ -319,12 +319,19 @@ def verify_contract(c, reg, timeout_ms=QUICK_TIMEOUT_MS, max_paths=4000, want_sm
                 ctx.oblige(name, 'raises', t, info)
             return outcome
         penv['result'] = result
+        pin_terms = {}
+        for pid, pfn in c.pins.items():
+            try:
+                pr_ = call_by_name(spec_ip, pfn, penv)
+                pin_terms[pid] = truth_term(ctx, pr_)
+            except PyRaise:
+                pin_terms[pid] = False
         # must-raise conditions: on a normal return none of the raises_iff conditions may hold
         for ecls, fn in c.raises_iff.items():
             r = call_by_name(spec_ip, fn, {k: v for k, v in penv.items() if k != 'result'})
             t = truth_term(ctx, r)
             ctx.oblige('%s#must-raise[%s]' % (c.key, ecls.__name__), 'must-raise',
-                       z3.Not(t) if not isinstance(t, bool) else (not t), {})
+                       z3.Not(t) if not isinstance(t, bool) else (not t), {'pins': pin_terms})
         post_fns = []
         if c.result_is is not None:
             spec_val = call_by_name(spec_ip, c.result_is, penv)
@@ -337,13 +344,6 @@ def verify_contract(c, reg, timeout_ms=QUICK_TIMEOUT_MS, max_paths=4000, want_sm
             except PyRaise as e:
                 # the postcondition is not even defined here (e.g. the specification says "invalid" but the code returned)
                 post_fns.append(('post', False, {'result': _short(result), 'specified': 'postcondition raised %r' % (e.exc,)}))
-        pin_terms = {}
-        for pid, pfn in c.pins.items():
-            try:
-                pr_ = call_by_name(spec_ip, pfn, penv)
-                pin_terms[pid] = truth_term(ctx, pr_)
-            except PyRaise:
-                pin_terms[pid] = False
         for kind_, t, info in post_fns:
             info['pins'] = pin_terms
             ctx.oblige('%s#%s' % (c.key, kind_), kind_, t, info)
